@@ -219,3 +219,17 @@ CHECKS["C19"] = dict(
     parts=[dict(name="seq", pkg="internal/netstate", test="TestVerifC19", shards=S8, env={"VERIF_PART": "seq"}),
            dict(name="lin", pkg="internal/netstate", test="TestVerifC19", race=True, shards=S8, gomaxprocs=8, env={"VERIF_PART": "lin"})],
 )
+
+CHECKS["C20"] = dict(
+    level="exploration",
+    technique="runtime monitoring: event-order monitor of the real Server.Serve supervising scripted tasks with real signals values, gates and a real unixgram notify socket; exhaustive BuildTasks comparison; race detector pass",
+    rule="(build) every mix of {advertise, monitor, neither} over 0–3 interfaces × debug on/off (exhaustive, 80 configurations) plus seeded mixes of 4–6 interfaces: task list compared by String(); "
+         "(serve) seeded scenarios of 1–5 scripted tasks with behaviours {runs until cancelled, fails on trigger, returns nil early, slow to stop (gated), ready now / gated / never} × stimulus {signal, failure, failure then signal, signal then failure} × {INT, TERM, HUP}; "
+         "oracles are orders in one event log (never wall-clock thresholds); non-trivial = every configuration/scenario; distinct = id",
+    exhaustive={"quick": True, "thorough": True},
+    assumptions=["real-time sleeps (10–20 ms) only increase detection power for 'too early' events; absence of an expected READY=1 within 3 s is inconclusive, not a violation",
+                 "the terminate flag is read through Server.t.terminate (the function BuildTasks hands to advertisers)"],
+    parts=[dict(name="build", pkg="internal/corerad", test="TestVerifC20", shards=S4, env={"VERIF_PART": "build"}),
+           dict(name="serve", pkg="internal/corerad", test="TestVerifC20", shards=S16, env={"VERIF_PART": "serve"}),
+           dict(name="race", pkg="internal/corerad", test="TestVerifC20", race=True, shards=S4, env={"VERIF_PART": "race"})],
+)
